@@ -56,6 +56,9 @@ def rule_r7(ctx, rep):
             if legacy:
                 strip_to_legacy(tree)
             pe = PEval(w)
+            # the saved tree is still alive (and registered) when the document is loaded back, as in a save / load within one session
+            from ..types import NODE_Q
+            pe.class_state[(NODE_Q, "store")] = {n["_id"]: n for n in nodes(tree)}
             text = _fold(rep, pe, to_f, [tree], what)
             if text is None:
                 continue
@@ -86,8 +89,8 @@ def rule_r7(ctx, rep):
             rep.count("round-trip verdicts")
             rep.oblige(("R7", kind, what), why is None, sample={"codec": kind, "tree": what})
             if why is not None:
+                # every world is reported on its own (a listed known finding for one tree must not hide another tree)
                 rep.add("R7", from_f.qname if "load" in why or "differs" in why else to_f.qname, what, f"{kind} JSON codec on {what}: {why}", from_f.loc())
-                break
     # a legacy document upgraded by the converter loads as the same tree with empty namespace data
     if conv is not None and l_to is not None and f_from is not None:
         import json as _json
